@@ -71,7 +71,10 @@ fn collect_operands_<'a>(
             collect_operands_(rhs, op_sym, Some(lhs.position.end_offset), result);
         }
         Expression_::Parentheses(paren) => {
-            collect_operands_(&paren.expr, op_sym, delete_from, result);
+            // The leftmost operand inside the parentheses has no left
+            // sibling inside them, so there is no deletion that stays
+            // within the parentheses.
+            collect_operands_(&paren.expr, op_sym, None, result);
         }
         _ => {
             result.push(Operand { expr, delete_from });
